@@ -13,7 +13,8 @@ def reg_of(v):
     units = {}
     for n, d in v["units"].items():
         units[n] = {"base": d["base"], "scale": F(*d["scale"]), "ref": cont_of(d["ref"]), "offset": F(*d["offset"]),
-                    "nonmult": d["nonmult"], "delta": d["delta"], "deltaOf": d["deltaOf"]}
+                    "nonmult": d["nonmult"], "delta": d["delta"], "deltaOf": d["deltaOf"],
+                    "log": d.get("log", False), "lb": F(*d["lb"]) if "lb" in d else F(1), "lf": F(*d["lf"]) if "lf" in d else F(1)}
     return {"units": units}
 
 
@@ -29,7 +30,9 @@ def lines_of(reg):
         else:
             rc = fmt_cont(d["ref"])
             rhs = fmt_num(d["scale"]) + (" * " + rc if rc else "")
-        if d["nonmult"]:
+        if d.get("log"):
+            rhs += "; logbase: %s; logfactor: %s" % (fmt_num(d["lb"]), fmt_num(d["lf"]))
+        elif d["nonmult"]:
             rhs += "; offset: " + fmt_num(d["offset"])
         out.append("%s = %s" % (n, rhs))
     return out
@@ -104,7 +107,7 @@ def kind_of_exception(e):
 
 def project(r):
     """real result -> abstract result (exact rationals)"""
-    if isinstance(r, bool) or type(r).__name__ == "bool_":
+    if isinstance(r, bool) or type(r).__name__ in ("bool_", "bool"):
         return {"k": "bool", "b": bool(r)}
     if isinstance(r, tuple):
         return {"k": "pair", "q": project(r[0]), "r": project(r[1])}
@@ -126,7 +129,7 @@ def expected(res):
     """TLA result value -> comparable python structure"""
     k = res["k"]
     if k == "ok":
-        return {"k": "ok", "m": F(*res["m"]), "u": cont_of(res["u"])}
+        return {"k": "ok", "m": F(*res["m"]) if res["m"][1] != 0 else None, "u": cont_of(res["u"])}     # None: Irr
     if k == "pair":
         return {"k": "pair", "q": expected(res["q"]), "r": expected(res["r"])}
     if k == "bool":
